@@ -25,7 +25,7 @@ CLAIMS = {
         text="Coq theorems for ALL strings, depths and group counts: a pattern with a brace compiles iff its braces balance; a string balances iff it is the print of a well-formed pattern tree; and for every accepted string Pattern::new+matches equals existsb over the csh expansion of that tree of 'matches as a pattern in its own right' (sound AND complete: C04_sound_complete, C04_api), with the recursion fuel (= number of '{') proved sufficient. Proof route: string-level rewriting of the right-most group = tree-level step that preserves the expansion set. Correspondence each run: generated trees printed to strings, implementation vs model vs the executable spec, with cross-pairing names aimed at the old every-'{' loop.",
         ref="§7 C04, §8 D4", note=TB, technique="Coq proof (mutual induction on pattern trees, refinement string-step = tree-step) + executable-spec differential correspondence"),
     "C05": dict(
-        text="Coq theorems: the glob crate's matcher model (three-valued result, Entire short-cut, star loop) decides exactly the declarative whole-string glob relation for every token list without '**' and every name; dispatch theorems (glob / plain) for all brace-free operator-free patterns; the first-two-characters fast reject is proved inert for plain, dewey, glob AND alternate patterns for all names (incl. length 0 and 1). Correspondence each run: token-grammar globs (sets, negated sets, ranges, ']' first, lone ']', '**', '***', unclosed '['), names sampled from the pattern, edits at index 0/1, short names.",
+        text="Coq theorems: the glob crate's matcher model (three-valued result, Entire short-cut, star loop) decides exactly the declarative whole-string glob relation for every token list without '**' and every name; C05_glob_string / C05_glob_pattern_meaning lift this to the pattern STRING: a string without '**' compiles iff every '[' opens a closed non-empty bracket expression (else the error is reported), and Pattern::new+matches then answers exactly the inductive shell-glob relation sglob on the string ('*' any run, '?' one character, [set]/[!set] with a-b ranges, ']' first literal), fast reject included; dispatch theorems (glob / plain) for all brace-free operator-free patterns; the first-two-characters fast reject is proved inert for plain, dewey, glob AND alternate patterns for all names (incl. length 0 and 1). Correspondence each run: token-grammar globs (sets, negated sets, ranges, ']' first, lone ']', '**', '***', unclosed '['), names sampled from the pattern, edits at index 0/1, short names.",
         ref="§7 C05", note=TB + " glob 0.3.1 Pattern::new/matches (default options) is modelled in Pattern.v and tied by correspondence only.",
         technique="Coq proof (joint induction complete/Entire) + model/implementation differential correspondence"),
     "C06": dict(
